@@ -48,7 +48,7 @@ pub fn cfg_for(profile: &str, miri: bool) -> Cfg {
     c
 }
 
-struct Gen<'a> { rng: &'a mut Rng, cfg: &'a Cfg, prog: Program, pool0_shared: bool }
+struct Gen<'a> { rng: &'a mut Rng, cfg: &'a Cfg, prog: Program, pool0_shared: bool, allow_polldrop: bool, nb_only_now: bool }
 
 impl<'a> Gen<'a> {
     fn immortal_objs(&self) -> Vec<usize> { (0..self.prog.n_obj).filter(|o| Some(*o) != self.prog.mortal).collect() }
@@ -73,11 +73,18 @@ impl<'a> Gen<'a> {
     }
 
     /// A nested operation scheduled from inside a body running on `obj`. Blocking forms only target higher-numbered immortal objects.
-    fn nested(&mut self, obj: usize, _in_future: bool, _parent: Option<OpId>) -> Option<OpId> {
+    fn nested(&mut self, obj: usize, in_future: bool, _parent: Option<OpId>) -> Option<OpId> {
         let imm = self.immortal_objs();
         if imm.is_empty() { return None; }
         let higher: Vec<usize> = imm.iter().cloned().filter(|o| *o > obj).collect();
-        let choice = self.rng.below(if higher.is_empty() || self.pool0_shared { 3 } else { 6 });
+        // Blocking forms tie up the thread that runs the body (possibly a pool thread). A nested `sync` gets through by stealing the
+        // queue, but not if that queue was left half-drained by a future that was polled and then dropped, so programs contain either
+        // nested blocking calls or poll-then-drop dispositions, never both. Awaiting with block_on inside a closure has no way to
+        // steal at all (it relies on a free pool thread), so nested awaits only appear inside future bodies, where they do not block.
+        // A blocked pool thread is lost to the pool for that time; at most one job per object can be blocked, so the pool must be
+        // at least as large as the number of objects for a free thread to remain (cf. the proviso of C10)
+        let blocking_ok = !higher.is_empty() && !self.pool0_shared && !self.allow_polldrop && !self.nb_only_now && self.prog.pool >= self.prog.n_obj;
+        let choice = if !blocking_ok { self.rng.below(3) } else if in_future { self.rng.below(6) } else { self.rng.below(4) };
         let (kind, disp, target) = match choice {
             0 => (Kind::Desync, Disp::None, *self.rng.pick(&imm)),
             1 => (Kind::FutDesync, Disp::Detach, *self.rng.pick(&imm)),
@@ -108,7 +115,8 @@ pub fn mixed(rng: &mut Rng, profile: &'static str, cfg: &Cfg, run_seed: u64) -> 
     if rng.below(100) < cfg.p_mortal { prog.mortal = Some(rng.below(prog.n_obj as u64) as usize); }
     let pool0 = prog.pool == 0;
     let pool0_shared = pool0 && n_threads > 1;
-    let mut g = Gen { rng, cfg, prog, pool0_shared };
+    let allow_polldrop = rng.chance(1, 2);
+    let mut g = Gen { rng, cfg, prog, pool0_shared, allow_polldrop, nb_only_now: false };
 
     for _t in 0..n_threads {
         let n_ops = g.rng.range(1, cfg.max_ops as u64) as usize;
@@ -124,7 +132,7 @@ pub fn mixed(rng: &mut Rng, profile: &'static str, cfg: &Cfg, run_seed: u64) -> 
                 if !resumers.is_empty() && (held_fs.is_empty() || g.rng.chance(1, 2)) {
                     let s = resumers.remove(0);
                     let use_it = g.rng.chance(2, 3);
-                    if g.rng.chance(1, 3) { acts.push(TAct::HandResumer(s)); g.prog.fire.push(FAct::Resume(s, use_it)); } else { acts.push(TAct::Resume(s, use_it)); }
+                    if !pool0 && g.rng.chance(1, 3) { acts.push(TAct::HandResumer(s)); g.prog.fire.push(FAct::Resume(s, use_it)); } else { acts.push(TAct::Resume(s, use_it)); }
                     nb_window.push(true);
                 } else if resumers.is_empty() {
                     // joining blocks: only allowed when nothing else is held open
@@ -155,19 +163,22 @@ pub fn mixed(rng: &mut Rng, profile: &'static str, cfg: &Cfg, run_seed: u64) -> 
                     let mut opts: Vec<Disp> = vec![Disp::Detach, Disp::Detach, Disp::DropNow, Disp::Hold];
                     if !nb_only && !pool0_shared { opts.push(Disp::Await); opts.push(Disp::Await); }
                     if !nb_only && kind == Kind::FutDesync { opts.push(Disp::SyncWait); }
-                    if !pool0 && !nb_only { opts.push(Disp::PollDrop(g.rng.range(1, 3) as u8)); }
+                    if !pool0 && !nb_only && allow_polldrop { opts.push(Disp::PollDrop(g.rng.range(1, 3) as u8)); }
                     if pool0_shared { opts.retain(|d| *d != Disp::Hold); }
                     *g.rng.pick(&opts)
                 }
                 Kind::FutSync => {
                     let mut opts: Vec<Disp> = vec![Disp::DropNow, Disp::Hold, Disp::Hold];
                     if !nb_only { opts.push(Disp::Await); opts.push(Disp::Await); opts.push(Disp::Await); }
-                    if !pool0 && !nb_only { opts.push(Disp::PollDrop(g.rng.range(1, 4) as u8)); opts.push(Disp::PollDrop(g.rng.range(1, 4) as u8)); }
+                    if !pool0 && !nb_only && allow_polldrop { opts.push(Disp::PollDrop(g.rng.range(1, 4) as u8)); opts.push(Disp::PollDrop(g.rng.range(1, 4) as u8)); }
                     *g.rng.pick(&opts)
                 }
                 Kind::Suspend => if g.rng.chance(1, 5) { Disp::DropNow } else { Disp::Await },
                 _ => Disp::None,
             };
+            // while this thread holds an un-awaited future_sync future or a resumer, nothing it runs may block - including bodies that
+            // may end up running on this very thread
+            g.nb_only_now = nb_only;
             let body = if kind == Kind::Suspend { vec![] } else { g.body(obj, is_future, 0, None) };
             let id = g.prog.add_op(obj, kind, disp, body);
             if kind == Kind::After { let gate = g.prog.new_gate(); g.prog.ops[id].gate = Some(gate); }
@@ -205,7 +216,7 @@ pub fn mixed(rng: &mut Rng, profile: &'static str, cfg: &Cfg, run_seed: u64) -> 
     let mut prog = g.prog;
     // a job of a lower-numbered immortal object may be the one that drops the last owner of the mortal object
     if let Some(m) = prog.mortal {
-        if rng.chance(1, 3) && !pool0 {
+        if rng.chance(1, 3) && !pool0 && !allow_polldrop && prog.pool >= prog.n_obj {
             let lower: Vec<usize> = (0..m).collect();
             if !lower.is_empty() {
                 let o = *rng.pick(&lower);
@@ -467,12 +478,13 @@ pub fn t_pipe(rng: &mut Rng, profile: &'static str, run_seed: u64, miri: bool, t
         }
     }
     // the firer feeds the input
-    for _ in preloaded..n_items { prog.fire.push(FAct::Item(0)); }
-    let mut fire: Vec<FAct> = std::mem::take(&mut prog.fire);
-    // gates of the items are fired somewhere after (or racing with) their arrival
-    for g in 0..prog.n_gates { let at = rng.below(fire.len() as u64 + 1) as usize; fire.insert(at, FAct::Fire(g)); }
-    if close && !preclosed { fire.push(FAct::Close(0)); }
-    prog.fire = fire;
+    // a separate thread feeds the input: a push can block (the wake-up may end up dropping the last owner of the target, which waits
+    // for the queue), so it must not be the thread that opens the gates
+    for _ in preloaded..n_items { prog.pusher.push(FAct::Item(0)); }
+    if close && !preclosed { prog.pusher.push(FAct::Close(0)); }
+    let mut gates: Vec<usize> = (0..prog.n_gates).collect();
+    rng.shuffle(&mut gates);
+    for g in gates { if rng.below(100) < 10 { prog.prefired.push(g); } else { prog.fire.push(FAct::Fire(g)); } }
     prog
 }
 
